@@ -22,6 +22,7 @@ def run(ctx):
     sig.s02_6_backsig(ctx, P)
     sig.s02_7_delegation(ctx, P)
     sig.s15_4_version_alignment_verify(ctx, P)
+    sig.s15_4_alignment_predicate(ctx, P)
     sig.salt_fed_at_every_hasher(ctx, P)
     sig.s02_8_every_binding_verified(ctx, P)
     sig.s02_9_parallel_slots(ctx, P)
